@@ -52,7 +52,25 @@ SeedC ==
      [C("IOAppend") EXCEPT !.k = "out", !.g = 1, !.v = 6],
      [C("SetType") EXCEPT !.v = 1, !.name = "INT64"] >>
 
-Seed(id) == CASE id = 1 -> SeedA [] id = 2 -> SeedB [] id = 3 -> SeedC
+\* nested AND unsorted: the node carrying subgraph g2 comes before the producer of the value g2 captures;
+\* values of sequence type (the type object has an inner element type)
+SeedD ==
+  << [C("NewNode") EXCEPT !.vs = <<>>, !.i = 1, !.g = 0],
+     [C("NewNode") EXCEPT !.vs = <<5>>, !.i = 1, !.g = 2],
+     [C("IOAppend") EXCEPT !.k = "out", !.g = 2, !.v = 6],
+     [C("IOAppend") EXCEPT !.k = "in", !.g = 1, !.v = 1],
+     [C("NewNode") EXCEPT !.vs = <<1>>, !.i = 1, !.g = 1],
+     [C("AttachSub") EXCEPT !.n = 3, !.g = 2],
+     [C("GAppend") EXCEPT !.g = 1, !.n = 1],
+     [C("IOAppend") EXCEPT !.k = "out", !.g = 1, !.v = 7] >>
+SeedE ==
+  << [C("IOAppend") EXCEPT !.k = "in", !.g = 1, !.v = 1],
+     [C("SetType") EXCEPT !.v = 1, !.name = "SEQ:FLOAT"],
+     [C("NewNode") EXCEPT !.vs = <<1>>, !.i = 1, !.g = 1],
+     [C("SetType") EXCEPT !.v = 5, !.name = "SEQ:FLOAT"],
+     [C("IOAppend") EXCEPT !.k = "out", !.g = 1, !.v = 5] >>
+
+Seed(id) == CASE id = 1 -> SeedA [] id = 2 -> SeedB [] id = 3 -> SeedC [] id = 4 -> SeedD [] id = 5 -> SeedE
 
 Empty == EmptyCS(EmptyState(2, Names4, Consts4))
 
